@@ -12,17 +12,22 @@ Definition sortb (l : list (nat * list N)) := fold_right insb [] l.
 
 Definition Tnats (l : list nat) : T := Tl (map Tnat (sort l)).
 
-(* tables as the harness reads them: live clients, non-empty buffers of live clients (lengths), buffer keys that are
-   not clients, closeq, poller read / write / targets / map — each sorted *)
+(* tables as the harness reads them — by meaning, not by attribute name: one row per socket that is open or still
+   referenced somewhere:  [s; open?; #containers of the server that track s (clients, pending-close);
+   residue (s closed but still a key/value/attribute of the server); lengths of the payloads buffered for s;
+   #poller lists holding s; s is a key of a poller dict?; s is a value of a poller dict?]
+   then the row of the listening socket [open?; #server containers; #poller lists; key?; value?] *)
+Definition b2z (b : bool) : Z := if b then 1%Z else 0%Z.
+Definition socks_of (x : st) : list sock :=
+  sort (nodup Nat.eq_dec (x.(clients) ++ map fst x.(bufs) ++ x.(closeq) ++ x.(rd) ++ x.(wr) ++ x.(tg) ++ x.(mp))).
+Definition enc_row (x : st) (s : sock) : T :=
+  let live := mem s x.(clients) in
+  Tl [Tnat s; Tbool live; Tn (b2z live + b2z (mem s x.(closeq)))%Z; Tbool (negb live && bhas s x.(bufs));
+      Tl (if live then map TN (bget s x.(bufs)) else []);
+      Tn (b2z (mem s x.(rd)) + b2z (mem s x.(wr)))%Z; Tbool (mem s x.(tg)); Tbool (mem s x.(mp))].
 Definition enc_tables (hm : bool) (x : st) : T :=
-  let live := x.(clients) in
-  Tl [ Tnats live;
-       Tl (map (fun p => Tl [Tnat (fst p); Tl (map TN (snd p))])
-               (sortb (filter (fun p => mem (fst p) live && negb (isnil (snd p))) x.(bufs))));
-       Tnats (map fst (filter (fun p => negb (mem (fst p) live)) x.(bufs)));
-       Tnats x.(closeq); Tnats x.(rd); Tnats x.(wr); Tnats x.(tg); Tnats x.(mp);
-       (* which tables hold the listening socket: poller read (4), targets (6), map (7) while it is open *)
-       Tnats (if x.(lis) then [4; 6] ++ (if hm then [7] else []) else []) ].
+  Tl [Tl (map (enc_row x) (socks_of x));
+      Tl [Tbool x.(lis); Tn 0; Tbool x.(lis); Tbool x.(lis); Tbool (x.(lis) && hm)]].
 
 Definition enc_call (o : out) : list T :=
   match o with
@@ -53,7 +58,13 @@ Definition enc_cev (e : cev) : list T :=
   | KConnected => [Tl [Tn 0]] | KDisconnected => [Tl [Tn 1]] | KData d => [Tl [Tn 3; Tb d]] | KErr | KSend _ => []
   end.
 Definition enc_csend (e : cev) : list T := match e with KSend n => [TN n] | _ => [] end.
-Definition obs_client (h : list cstim) : T :=
+(* withflag = false: the pending-close flag could not be observed in the tree under test and is left out *)
+Definition obs_client (withflag : bool) (h : list cstim) : T :=
   let '(x, os) := crun h in
-  Tl [Tl (flat_map enc_cev os); Tl (flat_map enc_csend os); Tbool x.(conn); Tl (map TN x.(pending));
-      Tbool x.(closeflag); Tbool x.(sopen)].
+  Tl ([Tl (flat_map enc_cev os); Tl (flat_map enc_csend os); Tbool x.(conn); Tl (map TN x.(pending));
+       Tbool x.(sopen)] ++ (if withflag then [Tbool x.(closeflag)] else [])).
+
+(* poller emission rule: kinds of the stimuli the server receives for one kernel report (0 _read, 1 _write, 2 _disconnect) *)
+Definition obs_emit (ein eout ehup : bool) : T :=
+  Tl (flat_map (fun i => match i with SRead _ _ => [Tn 0] | SWritable _ _ => [Tn 1] | SDisc _ => [Tn 2] | _ => [] end)
+               (pemit 0 ein eout ehup RWould WTrans)).
